@@ -86,6 +86,10 @@ def main():
         meta['demo_without_patch_rc'] = [r[0] for r in base]
         # ---- apply the change
         rc, out = sh(['git', 'apply', os.path.join(vdir, 'patch.diff')], cwd=wt)
+        if rc != 0:   # the tree moved on since the change was written (later fix: commits): try a 3-way merge
+            rc, out = sh(['git', 'apply', '-3', os.path.join(vdir, 'patch.diff')], cwd=wt)
+            meta['patch_applied_3way'] = rc == 0
+            sh(['git', 'reset', '-q'], cwd=wt)
         meta['patch_applies'] = rc == 0
         if rc != 0:
             print('patch does not apply:', out)
